@@ -14,7 +14,7 @@ S="$(mktemp -d /tmp/mqv-selftest.XXXXXX)"
 trap 'rm -rf "$S"' EXIT
 mkdir -p "$S/verif"
 rsync -a --exclude target --exclude .git /repo/ "$S/repo/"
-rsync -a --exclude target --exclude work --exclude replays --exclude evidence --exclude .git --exclude 'fuzz/target' --exclude 'fuzz/corpus' --exclude 'fuzz/artifacts' /verif/ "$S/verif/"
+rsync -a --exclude target --exclude work --exclude replays --exclude evidence --exclude .git --exclude 'fuzz/target' --exclude 'fuzz/corpus' --exclude 'fuzz/artifacts' "${SELFTEST_VERIF:-/verif}/" "$S/verif/"
 if ! (cd "$S/repo" && patch -p1 $REV --quiet < "$PATCH"); then echo "SELFTEST $ID $(basename "$PATCH"): patch does not apply"; exit 3; fi
 export CARGO_NET_OFFLINE=true
 if [ "${SKIP_REPO_TESTS:-0}" != 1 ]; then
